@@ -316,10 +316,10 @@ class ComposedNode(ConfigNode):
                     return node.ayns.has_priority_over(other_node)
 
                 def holes(list_path):
-                    # (what meets the list element-wise: a list, or a mapping whose keys are indices of it - not a function node)
-                    from .function import FunctionNode
+                    # (what meets the list element-wise: a list, a mapping whose keys are indices of it, or a function node, whose
+                    # positional arguments the elements become)
                     met = other.ayns.get_node(list_path[len(path):], incomplete=None)
-                    return 'partial' if isinstance(met, (list, dict)) and not isinstance(met, FunctionNode) else None
+                    return 'partial' if isinstance(met, (list, dict)) else None
 
                 self.ayns.filter_nodes(maybe_keep, prefix=path, removed=removed, holes=holes)
                 pruned = True
@@ -406,6 +406,14 @@ class ComposedNode(ConfigNode):
             for index in reversed(range(node.ayns.children_count())):
                 if node.ayns.get_child(index).__dict__.get('_is_hole'):
                     node.ayns.remove_child(index)
+        elif isinstance(node, dict):
+            # (a function node that has taken over a pruned list: the elements are its positional arguments, which close up like a list)
+            gone = sorted((name for name, child in node.ayns.named_children() if child.__dict__.get('_is_hole')), key=lambda name: (not isinstance(name, int), name if isinstance(name, int) else 0), reverse=True)
+            for name in gone:
+                node.ayns.remove_child(name)
+                if isinstance(name, int):
+                    for other_name in sorted(n for n in list(node.ayns.children_names()) if isinstance(n, int) and not isinstance(n, bool) and n > name):
+                        node.ayns.rename_child(other_name, other_name - 1)
 
     @staticmethod
     def _leaves_nothing(node):
